@@ -432,7 +432,7 @@ VIAS = ("pickle", "deepcopy", "read_first")
 def via(tier):
     """Other routes to an integrated model (build.World.run): the built model is pickled / deep-copied and the copy integrated (what the optimiser
     does with every model), or every reported quantity of the built model is read before integration.  Structures: the whole `pops`, `timed` and
-    `regress` spaces and every 9th model of `combined` (all of it in the thorough tier) at dt = 0.25 (thorough: every dt), plus models with an
+    `regress` spaces and every 9th model of `combined` at dt = 0.25 (thorough: every 5th, every dt), plus models with an
     output-only parameter whose function depends on time alone."""
     import copy
 
@@ -445,7 +445,7 @@ def via(tier):
         for spec in combined(tier):
             if tier == "thorough" or abs(spec["sim"][2] - 0.25) < 1e-12:
                 k += 1
-                if tier == "thorough" or k % 9 == 0:
+                if k % (5 if tier == "thorough" else 9) == 0:
                     yield spec
         for dt in (0.25, 1.0):
             for prog in (False, True):
